@@ -18,7 +18,7 @@ import (
 
 var c11HookStatus = []string{"null", "empty", "flat", "nested", "own-observedGeneration", "conditions"}
 var c11Live = []string{"same", "spec-edited", "labels-edited", "recreated", "gone", "status-edited"}
-var c11Existing = []string{"absent", "equal", "different"}
+var c11Existing = []string{"absent", "equal", "different", "superset"}
 var c11Conflicts = []int{0, 1, 2, 4} // retry.DefaultBackoff gives up after 4 attempts
 var c11Faults = []string{"none", "get-500", "put-500", "put-timeout", "put-lost-response"}
 
@@ -88,6 +88,19 @@ func c11Run(c c11Case) []mc.Finding {
 		parent["status"] = c11Target(c.HookStatus, 1)
 	case "different":
 		parent["status"] = kit.M{"old": "x", "observedGeneration": int64(0)}
+	case "superset":
+		// what an earlier answer left behind: everything the new answer has, and more
+		st := c11Target(c.HookStatus, 1)
+		st["left-over"] = "x"
+		if conds, ok := st["conditions"].(kit.L); ok {
+			st["conditions"] = append(append(kit.L{}, conds...), kit.M{"type": "Old", "status": "True"})
+		}
+		if a, ok := st["a"].(kit.M); ok {
+			a = kit.Copy(a)
+			a["left-over"] = "y"
+			st["a"] = a
+		}
+		parent["status"] = st
 	}
 	w.Sim.Seed(parent)
 	w.DeliverAll()
@@ -342,6 +355,58 @@ func c11FinRun(c c11FinCase) []mc.Finding {
 	return f
 }
 
+// --- sequences of answers: the stored status follows the hook from answer to answer ------------------------
+
+func c11SeqRun(seq []string) []mc.Finding {
+	var f []mc.Finding
+	bad := func(key, format string, a ...interface{}) {
+		f = append(f, mc.Finding{Key: "C11:" + key, Msg: fmt.Sprintf("answers %v: ", seq) + fmt.Sprintf(format, a...)})
+	}
+	w := newCWorld(ccOpt{parent: kit.Thing, children: []*sim.Kind{kit.Leaf}, generateSel: true}, false)
+	parent := kit.Obj(kit.Thing, "n1", "p")
+	kit.Field(parent, "puid", "metadata", "uid")
+	kit.Field(parent, int64(1), "spec", "x")
+	w.Sim.Seed(parent)
+	w.DeliverAll()
+	cur := ""
+	w.Hooks.Handle("/cc/sync", world.JSON(func(req map[string]interface{}) interface{} {
+		out := kit.M{"children": kit.L{kit.Field(kit.Obj(kit.Leaf, "", "a"), "1", "spec", "v")}}
+		if st := c11Status(cur); st != nil {
+			out["status"] = st
+		}
+		return out
+	}))
+	for i, shape := range seq {
+		cur = shape
+		w.Sim.ResetLog()
+		if err, p, stack := w.syncKey("n1/p"); err != nil || p != nil {
+			bad("seq:sync-error", "sync %d: %v %v %s", i, err, p, stack)
+			return f
+		}
+		w.DeliverAll()
+		live := w.Sim.Get(kit.Thing, "n1", "p")
+		gen, _ := kit.Get(live, "metadata", "generation").(int64)
+		if target := c11Target(shape, gen); !reflect.DeepEqual(kit.Get(live, "status"), interface{}(target)) {
+			bad("seq:final-status", "after answer %d (%s) the stored status is %s, want %s", i, shape, kit.JSON(kit.Get(live, "status")), kit.JSON(target))
+			return f
+		}
+		// and a repeat of the same answer writes nothing
+		w.Sim.ResetLog()
+		if err, p, stack := w.syncKey("n1/p"); err != nil || p != nil {
+			bad("seq:sync-error", "repeat of sync %d: %v %v %s", i, err, p, stack)
+			return f
+		}
+		for _, r := range w.Sim.Log {
+			if r.Kind == kit.Thing && r.Mutating() {
+				bad("seq:needless-write", "repeat of answer %d (%s): %s", i, shape, r)
+			}
+		}
+		w.DeliverAll()
+	}
+	c11Outcome = "followed"
+	return f
+}
+
 func TestVerifC11(t *testing.T) {
 	r := mc.NewReport("C11", "status")
 	dims := []int{len(c11HookStatus), len(c11Live), len(c11Existing), len(c11Conflicts), len(c11Faults), 2}
@@ -365,4 +430,16 @@ func TestVerifC11(t *testing.T) {
 		r2.Sample(c)
 	})
 	r2.Write()
+	r3 := mc.NewReport("C11", "answer-sequences")
+	shapes := append([]string{}, c11HookStatus...)
+	n := len(shapes)
+	mc.Product(r3, []int{n, n, n}, func(idx int, d []int) {
+		seq := []string{shapes[d[0]], shapes[d[1]], shapes[d[2]]}
+		r3.Case(seq, fmt.Sprint(idx), func() []mc.Finding { return c11SeqRun(seq) })
+		r3.Outcome(c11Outcome)
+		if idx%37 == 0 {
+			r3.Sample(seq)
+		}
+	})
+	r3.Write()
 }
